@@ -641,12 +641,23 @@ def model_request(c):
     prog = tr(c["prog"])
     if c["fmt"] == "bam":
         hx = lambda x: x.encode("latin-1").hex()
-        return {"op": "prog", "fmt": "bam", "hdr": hx(_header(c)), "prog": prog, "nF": 9, "repl": [],
+        return {"op": "prog", "fmt": "bam", "hdr": hx(_header(c)), "prog": prog, "nF": 9, "repl": [], "cmp": "bytes",
                 "tables": [hx("".join(r["raw"] for r in t)) for t in tabs],
                 "recs": [[{"raw": hx(r["raw"]), "fields": []} for r in t] for t in tabs]}
     return {"op": "prog", "fmt": c["fmt"], "hdr": _header(c), "prog": prog, "nF": FORMATS[c["fmt"]][2],
+            "cmp": "fields" if (c["repl"] or _has_cat(c["prog"])) else "bytes",
             "tables": ["".join(r["raw"] for r in t) for t in tabs], "recs": tabs,
             "repl": [[k, [_fmt_new(kind, v) for v in vals]] for k, kind, vals in c["repl"]]}
+
+
+def agree_model(c, got, m):
+    """the Lean side also reports whether every extractor built from the case's files satisfies the (proved-sound)
+    invariant checker `Ext.invB` — the hypothesis of `program_bytes`; it must hold for the correspondence to count"""
+    if isinstance(m, dict) and "out" in m:
+        if m.get("inv") is not True:
+            return False
+        m = {k: v for k, v in m.items() if k != "inv"}
+    return core.canon(got) == core.canon(m)
 
 
 def finding_key(c, got, exp):
@@ -661,5 +672,5 @@ def finding_key(c, got, exp):
     if c["repl"]:
         return f"{fmt}:replaced-write" + (":crlf" if crlf else "")
     if crlf:
-        return ("delimited" if fmt in ("bed", "bed6", "narrowpeak", "vcf", "vcfg", "sam") else fmt) + ":crlf-selection-loses-newline"
+        return ("sam" if fmt == "sam" else "delimited" if fmt in ("bed", "bed6", "narrowpeak", "vcf", "vcfg") else fmt) + ":crlf-selection-loses-newline"
     return f"{fmt}:passthrough-bytes-differ"
